@@ -37,9 +37,30 @@ def swap_origins(rnd, t):
     if k == 'dict':
         return ('dict', rnd.choice([3, 4, 5]), t[2], swap_origins(rnd, t[3]))
     if k == 'union':
+        # typing.Union collapses equal members: a Union whose members differ only in the container variant (already ambiguous
+        # for every value) would change its number of members under the swap -- that is Python's doing, not a change of
+        # meaning the property speaks about; leave such Unions alone
+        norm = [repr(erase_origins(m)) for m in t[1]]
+        if len(set(norm)) != len(norm):
+            return t
         return ('union', [swap_origins(rnd, m) for m in t[1]])
     if k == 'optional':
         return ('optional', swap_origins(rnd, t[1]))
+    return t
+
+
+def erase_origins(t):
+    if t is None or isinstance(t, str):
+        return t
+    k = t[0]
+    if k == 'list':
+        return ('list', 0, erase_origins(t[2]))
+    if k == 'dict':
+        return ('dict', 3, t[2], erase_origins(t[3]))
+    if k == 'union':
+        return ('union', [erase_origins(m) for m in t[1]])
+    if k == 'optional':
+        return ('optional', erase_origins(t[1]))
     return t
 
 
@@ -72,14 +93,21 @@ def map_specs(specs, f):
 
 
 def class_param_types(specs, cname):
-    """name -> declared type, over the class and all its registered descendants (whichever is recognised)."""
-    out = {}
+    """name -> declared type, for the parameters that EVERY class of the hierarchy (the class and all its registered
+    descendants) declares with the same type: whichever class is recognised, the value sits at that type.  (A key that is a
+    parameter of only some of them may end up among the extra attributes, where order is data.)"""
+    out = None
     for n in [cname] + loadcase.all_subclasses(specs, cname):
         s = loadcase.spec_of(specs, n)
-        if s and s['kind'] == 'obj':
-            for p in s['params']:
-                out.setdefault(p['name'], p.get('type'))
-    return out
+        if not s or s['kind'] != 'obj':
+            return {}
+        mine = {p['name']: repr(p.get('type')) for p in s['params']}
+        types = {p['name']: p.get('type') for p in s['params']}
+        if out is None:
+            out = dict(types)
+        else:
+            out = {k: v for k, v in out.items() if k in mine and mine[k] == repr(v)}
+    return out or {}
 
 
 def shuffle_class_keys(rnd, node, specs, t):
@@ -100,7 +128,10 @@ def shuffle_class_keys(rnd, node, specs, t):
         for k, v in node.value:
             if isinstance(k, yaml.ScalarNode):
                 n += shuffle_class_keys(rnd, v, specs, pt.get(k.value.replace('-', '_')))
-        if len(node.value) > 1:
+        keys = [k.value if isinstance(k, yaml.ScalarNode) else None for k, _ in node.value]
+        # a mapping with duplicate (or non-scalar) keys is not a well-formed YAML mapping: which duplicate wins depends on the
+        # order, so reordering it is not a meaning-preserving change
+        if len(node.value) > 1 and None not in keys and len(set(keys)) == len(keys):
             before = [id(k) for k, _ in node.value]
             rnd.shuffle(node.value)
             n += before != [id(k) for k, _ in node.value]
